@@ -32,6 +32,13 @@ EvOpen ==
 
 EvClose ==
   /\ Ev.k = "close"
+  /\ Ev.c \in DOMAIN S.conns
+  /\ S' = [S EXCEPT !.conns[Ev.c].closing = TRUE]
+  /\ UNCHANGED devs
+
+(* a full event-loop pass has run since the client closed: the server has seen the EOF *)
+EvGone ==
+  /\ Ev.k = "gone"
   /\ S' = DropConn(S, Ev.c)
   /\ UNCHANGED devs
 
@@ -41,7 +48,7 @@ EvReset ==  \* a fresh server instance
   /\ UNCHANGED devs
 
 (* what the client received is what the server computed for that request (C05) *)
-ClientGot(r, sr) == r = sr
+ClientGot(r, sr) == sr.t = "none" \/ r = sr
 
 EvCmd ==
   /\ Ev.k = "cmd"
@@ -62,6 +69,25 @@ EvUnlogged == Ev.k = "unlogged" /\ Ev.r.t \in {"closed", "none"} /\ UNCHANGED <<
 (* result of a structure checker hook (skip list, pending-entry indexes, pub/sub maps): must be ok *)
 EvChk == Ev.k = "chk" /\ Ev.ok = 1 /\ UNCHANGED <<S, devs>>
 
+(* an unsolicited frame read by client c: it must be one of the frames of the oldest publish the
+   server still owes c (frames of one publish may come in any order) *)
+EvPush ==
+  /\ Ev.k = "push"
+  /\ Ev.c \in DOMAIN S.conns
+  /\ LET ib == S.conns[Ev.c].inbox IN
+     /\ ib # <<>>
+     /\ \E i \in 1..Len(ib[1]) :
+          /\ Match(ib[1][i], Ev.frame)
+          /\ LET rest == [j \in 1..(Len(ib[1]) - 1) |-> IF j < i THEN ib[1][j] ELSE ib[1][j + 1]]
+             IN S' = [S EXCEPT !.conns[Ev.c].inbox = IF rest = <<>> THEN Tail(ib) ELSE <<rest>> \o Tail(ib)]
+  /\ UNCHANGED devs
+
+(* the driver waited long enough: every push the server owed has been received *)
+EvQuiesce ==
+  /\ Ev.k = "quiesce"
+  /\ \A c \in DOMAIN S.conns : S.conns[c].inbox = <<>>
+  /\ UNCHANGED <<S, devs>>
+
 EvNote == Ev.k = "note" /\ UNCHANGED <<S, devs>>
 
 EvDropped ==  \* the client saw the server close the connection
@@ -72,7 +98,7 @@ EvDropped ==  \* the client saw the server close the connection
 TraceNext ==
   /\ l <= N
   /\ l' = l + 1
-  /\ (EvOpen \/ EvClose \/ EvReset \/ EvCmd \/ EvNote \/ EvDropped \/ EvUnlogged \/ EvChk)
+  /\ (EvOpen \/ EvClose \/ EvReset \/ EvCmd \/ EvNote \/ EvDropped \/ EvUnlogged \/ EvChk \/ EvPush \/ EvQuiesce \/ EvGone)
   /\ IF l > TLCGet(1) THEN TLCSet(1, l) /\ TLCSet(3, S') ELSE TRUE   \* deepest matched event (last conjunct!)
 
 TraceSpec == TraceInit /\ [][TraceNext]_vars
